@@ -125,8 +125,8 @@ def programs(tier, work):
     # ---- binop (+ fn-binop)
     for t1, t2, op in itertools.product(TYPES, TYPES, BINOPS):
         if focus is not None and (t1, op, t2) not in focus:
-            # the literal-typed form may still be accepted: keep one representative value pair
-            pairs = [(V[t1][min(1, len(V[t1]) - 1)], V[t2][-1])]
+            # quick: combinations the checker rejects for annotated operands are left to the thorough tier
+            continue
         else:
             pairs = list(itertools.product(V[t1], V[t2]))
         for v1, v2 in pairs:
@@ -142,7 +142,7 @@ def programs(tier, work):
             for s2 in SUBS[t2]:
                 if tier == "quick":
                     # one value pair per argument-class pair (the exact classes are the binop family's subject)
-                    pairs = [(V[s1][1], V[s2][-1])] + ([(V[s1][-1], V[s2][1])] if (s1, s2) != (t1, t2) else [])
+                    pairs = [(V[s1][1], V[s2][-1])]
                 else:
                     pairs = list(itertools.product(V[s1], V[s2]))
                 for v1, v2 in pairs:
@@ -159,7 +159,7 @@ def programs(tier, work):
     for t1, t2, op in itertools.product(MUTABLE, TYPES, BINOPS):
         if focus is not None and (t1, op, t2) not in focus and (t2, op, t1) not in focus:
             continue
-        pairs = [(V[t1][1], V[t2][-1]), (V[t1][-1], V[t2][0])] if tier == "quick" else list(itertools.product(V[t1], V[t2]))
+        pairs = [(V[t1][-1], V[t2][0])] if tier == "quick" else list(itertools.product(V[t1], V[t2]))
         for v1, v2 in pairs:
             if not size_ok(op, v1, v2) or not size_ok(op, v2, v1):
                 continue
